@@ -39,6 +39,24 @@ theorem violation_rejected_with_code_partial {s : State} {sp : Space} {f : Frame
   obtain ⟨v', h1, h2⟩ := onFrame_err hcode hl hw
   exact ⟨c, v', hcode, h1, h2⟩
 
+/-- Instance the adversarial scenarios exercise: a peer-initiated stream that is referenced for the first time
+    (inside the advertised stream limit) starts with the configured window `s.window sid`; STREAM data beyond
+    that window is refused with a code RFC 9000 permits — no hypothesis about existing streams is needed. -/
+theorem fresh_stream_beyond_window_rejected {s : State} {sid off : Nat} {d : List Nat} {fin : Bool}
+    (hl : Live s) (hw : WFStreams s) (hn : NextLe s) (hloc : localInitiated s sid = false)
+    (hnew : sidIndex sid ≥ s.next (sidServer sid) (sidUni sid)) (hlim : sidIndex sid < advertisedStreams s sid)
+    (hwin : s.window sid ≤ maxVarInt) (hbad : off + d.length > s.window sid) :
+    ∃ c v', s.onFrame .application (.stream sid off d fin) = .error c
+      ∧ commits s .application (.stream sid off d fin) v' ∧ c ∈ errorFor v' := by
+  have hv := view_fresh hl hloc hnew hlim
+  obtain ⟨p1, p2, p3⟩ := newStream_remote_props s sid hloc hwin
+  refine violation_rejected_with_code_partial hl hw hn (v := .streamDataLimit)
+    ⟨rfl, sid, _, hv, Or.inl ⟨off, d, fin, rfl, by rw [p2]; exact hbad⟩⟩ ?_
+  intro sid' h
+  simp only [frameStream] at h
+  injection h with h; subst h
+  exact ⟨_, hv, p1, p3⟩
+
 /-- A rejected packet contributes exactly its legal prefix: processing stops at the first offending frame,
     whose data (and everything after it) reaches no buffer. -/
 theorem offending_frame_has_no_effect {s : State} {sp : Space} {fs : List Frame} {c : ErrorCode}
